@@ -113,7 +113,8 @@ SchemaP writer_variant(const Schema& s, Tape& t, bool* changed) {
     uint64_t id = 9000 + t.below(3);
     for (;;) { bool used = false; for (auto& e : o.entries) if (e.id == id) used = true; if (!used) break; id++; }
     TabEntry u; u.id = id; u.active = true;
-    switch (t.below(3)) { case 0: u.type = s_int(32, false); break; case 1: u.type = s_str(1); break; default: u.type = s_seq(s_tup({s_int(16, true), s_str(1)})); }
+    // (a fixed 200-element BIN makes the skipped region longer than any small internal chunk size)
+    switch (t.below(4)) { case 0: u.type = s_int(32, false); break; case 1: u.type = s_str(1); break; case 2: u.type = s_bin(1, false, 200); break; default: u.type = s_seq(s_tup({s_int(16, true), s_str(1)})); }
     size_t at = (size_t)t.below(o.entries.size() + 1);
     o.entries.insert(o.entries.begin() + at, u);
     *changed = true;
